@@ -1,6 +1,7 @@
 import LasioModel.Writer
 import LasioProofs.Lemmas.WriterLemmas
 import LasioProofs.Props.C03
+import LasioProofs.Lemmas.RoundTripData
 /-
 C12 — the content recovered from a written file does not depend on how it was written (header part).
 The data-section half of the property (numeric formats of equal precision, wrap, widths, spacers) is about the
@@ -139,6 +140,85 @@ example (c : MCase) :
   ⟨by decide, C12_version_swap .well c .descrValue ⟨6, 25⟩ ⟨6, 25⟩ _ (by decide) (by decide)
     (C03_example_conf .well) (by decide) (by decide)⟩
 
+/-! ## Data section: writer options change the presentation only
+
+Writer model `Dw` (`LasioModel/DataWrite.lean`), reader model `Dt` (`LasioModel/Data.lean`), bridge `Rt`
+(`Lemmas/RoundTripData.lean`); `Rt.Written cfg null mn rows c n hdr body` = `cfg` parses to the row configuration `c`,
+`Dw.CfgOK c null`, the NULL text is a quiet token, `Dw.dataLines cfg null mn rows = some (hdr :: body)`, `rows` is a
+non-empty r × n matrix (built by `C01_written`, Props/C01.lean).  `Rt.SamePrec c1 c2 n`: column j < n is printed with the same
+number of decimals by both. -/
+
+/-- **The token matrix depends on the options only through the precision of each column** — not on the field width of the
+format (`%10.3f` vs `%.3f`), `len_numeric_field`, `lhs_spacer`, `spacer`, `wrap`, `data_width`, `header_width`,
+`data_section_header`, `mnemonics_header`, nor on the mnemonics. -/
+theorem C12_data_tokens_independent (c1 c2 : Dw.RowCfg) (null : Str) (rows : List (List Dw.F64)) (n : Nat)
+    (hrect : ∀ r ∈ rows, r.length = n) (hp : Rt.SamePrec c1 c2 n) :
+    rows.map (Dw.rowTokens c1 null) = rows.map (Dw.rowTokens c2 null) :=
+  Rt.tokenRows_samePrec c1 c2 null rows n hrect hp
+
+/-- **What is read does not depend on how it was written**: two supported option records with the same precision per column
+and otherwise arbitrary presentation options (wrap or not, widths, spacers, header style, line ends) — the recovered token
+matrices are equal and so are the results of the normal engine on the two bodies (under any active substitutions). -/
+theorem C12_data_independent {cfg1 cfg2 : Dw.DataCfg} {null : Str} {mn1 mn2 : List Str} {rows : List (List Dw.F64)}
+    {c1 c2 : Dw.RowCfg} {n : Nat} {hdr1 hdr2 : Str} {body1 body2 : List Str}
+    (w1 : Rt.Written cfg1 null mn1 rows c1 n hdr1 body1) (w2 : Rt.Written cfg2 null mn2 rows c2 n hdr2 body2)
+    (hp : Rt.SamePrec c1 c2 n) (ft : Dt.FloatTable) (sb1 sb2 : Dt.Subs) (eol1 eol2 : Str)
+    (h1 : Dt.AllWs eol1) (h2 : Dt.AllWs eol2) :
+    rows.map (Dw.rowTokens c1 null) = rows.map (Dw.rowTokens c2 null) ∧
+    Dt.normalEngineLines ft sb1 .space n (body1.map (· ++ eol1)) =
+      Dt.normalEngineLines ft sb2 .space n (body2.map (· ++ eol2)) ∧
+    Dt.normalEngineLines ft sb1 .space n (body1.map (· ++ eol1)) =
+      .ok (Dt.matrixColumns ft n (rows.map (Dw.rowTokens c1 null))) :=
+  ⟨(Rt.presentation_independent w1 w2 hp ft sb1 sb2 eol1 eol2 h1 h2).1,
+   (Rt.presentation_independent w1 w2 hp ft sb1 sb2 eol1 eol2 h1 h2).2,
+   Rt.roundtrip_normal w1 ft sb1 eol1 h1⟩
+
+/-- **Through `readData`, wrapped vs unwrapped**: the file written with options 1 (any `wrap`) and read with WRAP = YES
+declared, and the file written with options 2 (`wrap=False`) and read with WRAP ≠ YES (after its section: nothing, or a
+line whose first token is not a number), `n` declared curves, the same header NULL, the same null policy, any requested
+engines: the same curves. -/
+theorem C12_data_read_independent {cfg1 cfg2 : Dw.DataCfg} {null : Str} {mn1 mn2 : List Str} {rows : List (List Dw.F64)}
+    {c1 c2 : Dw.RowCfg} {n : Nat} {hdr1 hdr2 : Str} {body1 body2 : List Str}
+    (w1 : Rt.Written cfg1 null mn1 rows c1 n hdr1 body1) (w2 : Rt.Written cfg2 null mn2 rows c2 n hdr2 body2)
+    (hp : Rt.SamePrec c1 c2 n) (hwrap2 : cfg2.wrap = false)
+    (e1 e2 : Dt.Engine) (p : Dt.NullPolicy) (st1 st2 : Dt.Steer) (ft : Dt.FloatTable)
+    (eol1 eol2 : Str) (h1 : Dt.AllWs eol1) (h2 : Dt.AllWs eol2)
+    (pre1 pre2 : List Str) (title1 title2 : Str) (after1 after2 : List Str)
+    (hd1 : st1.delimiter = .space) (hd2 : st2.delimiter = .space)
+    (hwd1 : st1.wrapDeclared = true) (hwy1 : st1.wrapped = Dt.yesTxt) (hw2 : st2.wrapped ≠ Dt.yesTxt)
+    (hnull : st1.nullValue = st2.nullValue)
+    (hnext : after2 = [] ∨ ∃ ln rest t ts, after2 = ln :: rest ∧ Dt.npTokens ln = t :: ts ∧ Dt.toFloat ft t = none) :
+    (Dt.readData ⟨e1, p⟩ (pre1 ++ title1 :: (body1.map (· ++ eol1) ++ after1)) pre1.length
+        (pre1.length + (body1.map (· ++ eol1)).length) st1 n ft).map Prod.snd =
+    (Dt.readData ⟨e2, p⟩ (pre2 ++ title2 :: (body2.map (· ++ eol2) ++ after2)) pre2.length
+        (pre2.length + (body2.map (· ++ eol2)).length) st2 n ft).map Prod.snd :=
+  Rt.read_independent w1 w2 hp hwrap2 e1 e2 p st1 st2 ft eol1 eol2 h1 h2 pre1 pre2 title1 title2 after1 after2
+    hd1 hd2 hwd1 hwy1 hw2 hnull hnext
+
+/-- the precision is content, not presentation: 0.25 written with `%.1f` and with `%.2f` -/
+theorem C12_data_precision_matters (null : Str) :
+    Dw.cellToken null ⟨none, 1⟩ (.finite false 1 (-2)) = "0.2".toList ∧
+    Dw.cellToken null ⟨none, 2⟩ (.finite false 1 (-2)) = "0.25".toList :=
+  Rt.precision_matters null
+
+/-- non-vacuity: the same 2 × 2 matrix written wrapped with `%.1f`, field 10, and unwrapped with `%8.1f`, no field, TAB
+spacer and a mnemonics header: two different texts, both satisfy `Rt.Written`, same precision -/
+theorem C12_data_example :
+    Rt.Written ⟨true, "%.1f".toList, [], none, [' '], [' '], 12, 20, "~A".toList, false⟩ "-999.25".toList
+      ["DEPT".toList, "A".toList] [[.finite false 1 0, .nan], [.finite false 1 1, .finite false 1 0]]
+      ⟨⟨none, 1⟩, [], 10, [' '], [' ']⟩ 2
+      "~A -----------------".toList ["        1.0".toList, "-999.25".toList, "        2.0".toList, "1.0".toList] ∧
+    Rt.Written ⟨false, "%8.1f".toList, [], some (-1), [], ['\t'], 80, 60, "~ASCII".toList, true⟩ "-999.25".toList
+      ["DEPT".toList, "A".toList] [[.finite false 1 0, .nan], [.finite false 1 1, .finite false 1 0]]
+      ⟨⟨some 8, 1⟩, [], -1, [], ['\t']⟩ 2
+      "~ASCII DEPT       A".toList ["     1.0\t-999.25".toList, "     2.0\t     1.0".toList] ∧
+    Rt.SamePrec ⟨⟨none, 1⟩, [], 10, [' '], [' ']⟩ ⟨⟨some 8, 1⟩, [], -1, [], ['\t']⟩ 2 := by
+  refine ⟨⟨by rfl, ⟨by decide, by decide, by decide, ⟨by decide, by decide⟩⟩, Rt.quietTok_of_check _ (by decide),
+    by decide, by decide, by decide, by decide⟩,
+    ⟨by rfl, ⟨by decide, by decide, by decide, ⟨by decide, by decide⟩⟩, Rt.quietTok_of_check _ (by decide),
+    by decide, by decide, by decide, by decide⟩, fun j _ => ?_⟩
+  simp [Dw.RowCfg.colFmt]
+
 #print axioms C12_header_independent
 #print axioms C12_header_width_titles_only
 #print axioms C12_version_swap
@@ -147,5 +227,10 @@ example (c : MCase) :
 #print axioms C12_counterexample_colon_descr
 #print axioms C12_counterexample_blank_mnemonic_period
 #print axioms C12_counterexample_colon_value_conf
+#print axioms C12_data_tokens_independent
+#print axioms C12_data_independent
+#print axioms C12_data_read_independent
+#print axioms C12_data_precision_matters
+#print axioms C12_data_example
 
 end Lasio.Wr
